@@ -257,15 +257,32 @@ STRLIT = r'"((?:[^"\\]|\\.)*)"'
 
 # ------------------------------------------------------------------ symbolic execution
 
+UNKNOWN_FMT = ("?", "?")
+
+
+def fresh_fmt():
+    """`out` : whatever the caller of write() left (unknown); `sec` : the visitor's secondary `ostringstream`"""
+    return {"out": UNKNOWN_FMT, "sec": UNKNOWN_FMT}
+
+
+def join_fmt(a, b):
+    """the format in force after two paths meet: a component survives only if both paths agree on it"""
+    return {k: tuple(x if x == y else "?" for x, y in zip(a[k], b[k])) for k in a}
+
+
 class State:
-    def __init__(self, env=None, ostr=None, secondary=False, tag=None):
+    def __init__(self, env=None, ostr=None, secondary=False, tag=None, fmt=None, ints=None, saved=None):
         self.env = dict(env or {})
         self.ostr = list(ostr) if ostr is not None else None   # secondary stream buffer (None = not declared)
         self.secondary = secondary                             # visitor's *ostr points to the secondary stream
         self.tag = tag
+        # round 8: the floatfield / precision in force on the two streams, as the manipulator statements leave them
+        self.fmt = dict(fmt) if fmt is not None else fresh_fmt()
+        self.ints = dict(ints or {})                           # `const int linear = make_check_precision(6)` …
+        self.saved = dict(saved or {})                         # `ios_base::fmtflags f(out.flags())`
 
     def copy(self):
-        return State(self.env, self.ostr, self.secondary, self.tag)
+        return State(self.env, self.ostr, self.secondary, self.tag, self.fmt, self.ints, self.saved)
 
 
 class Exec:
@@ -289,6 +306,51 @@ class Exec:
         if not re.search(r"std::string\s+lastTag\s*\(\s*\)\s*const\s*\{\s*return\s+tag\s*;\s*\}", text):
             raise SkError("WriteXMLVisitor::lastTag() is not `return tag;`")
         self.inlined = set()
+        self.entry_fmt = {}       # writer function -> format state at its call site (joined over the call sites)
+        self.int_fns = {}         # `int make_check_precision(int) { return 16; }`
+        for m in re.finditer(r"\bint\s+(\w+)\s*\(\s*int\s*\w*\s*\)\s*\{\s*return\s+(\d+)\s*;\s*\}", text):
+            self.int_fns[m.group(1)] = int(m.group(2))
+        # the visitor's `linear` / `angular` are its 2nd and 3rd constructor arguments
+        self.visitor_prec_ok = bool(re.search(
+            r"WriteXMLVisitor\s*\(\s*std::ostream\s*&\s*outStream\s*,\s*int\s+(\w+)\s*,\s*int\s+(\w+)\s*,[^)]*\)"
+            r"\s*:[^{]*\blinear\s*\(\s*\1\s*\)\s*,\s*angular\s*\(\s*\2\s*\)", text))
+
+    def eval_int(self, e, st):
+        e = e.strip()
+        if re.fullmatch(r"\d+", e):
+            return int(e)
+        if e in st.ints:
+            return st.ints[e]
+        m = re.fullmatch(r"(\w+)\s*\(\s*\d+\s*\)", e)
+        if m and m.group(1) in self.int_fns:
+            return self.int_fns[m.group(1)]
+        raise SkError(f"precision expression `{e}` is not a literal, a known constant or a constant function")
+
+    @staticmethod
+    def target(stream, st):
+        """which stream an output statement of the visitor reaches"""
+        return "out" if stream == "out" or not st.secondary else "sec"
+
+    def set_ff(self, st, tgt, ff):
+        st.fmt[tgt] = (ff, st.fmt[tgt][1])
+
+    def set_prec(self, st, tgt, p):
+        st.fmt[tgt] = (st.fmt[tgt][0], p)
+
+    def manipulator(self, op, st, tgt):
+        """`<< setprecision(n)`, `<< fixed` … inside an output statement; True if `op` was one"""
+        op = op.strip()
+        m = re.fullmatch(r"(?:std::)?setprecision\s*\((.*)\)", op)
+        if m:
+            self.set_prec(st, tgt, self.eval_int(m.group(1), st))
+            return True
+        m = re.fullmatch(r"(?:std::)?(fixed|scientific|defaultfloat)", op)
+        if m:
+            self.set_ff(st, tgt, {"fixed": "fixed", "scientific": "sci", "defaultfloat": "gen"}[m.group(1)])
+            return True
+        if re.search(r"\b(setprecision|setw|setfill|hexfloat|showpoint|showpos|uppercase|setiosflags|resetiosflags)\b", op):
+            raise SkError(f"unrecognised stream manipulator `{op[:80]}`")
+        return False
 
     # ---- statements
     def run(self, stmts, st):
@@ -299,37 +361,66 @@ class Exec:
             if kind == "block":
                 nodes += self.run(s[1], st.copy() if False else st)
             elif kind == "loop":
-                body = self.run([s[1]], self.loop_state(st))
+                # the format at the head of the body = entry joined with what an iteration leaves (fixed point)
+                ent = st.copy()
+                for _ in range(6):
+                    bst = self.loop_state(ent)
+                    body = self.run([s[1]], bst)
+                    new = join_fmt(ent.fmt, bst.fmt)
+                    if new == ent.fmt:
+                        break
+                    ent.fmt = new
+                else:
+                    raise SkError("format state of a loop does not stabilise")
+                st.fmt = dict(ent.fmt)
                 nodes.append(("star", body))
             elif kind == "class":
                 if "<<" in s[1] or re.search(r"\bout\b", s[1]):
                     raise SkError("a local class of a writer function streams output")
             elif kind == "switch":
-                nodes.append(("alt", [self.run(c, st.copy()) for c in s[1]] + [[]]))   # + no case taken (`default: break`)
+                brs, f = [], dict(st.fmt)
+                for c in s[1]:
+                    stc = st.copy()
+                    brs.append(self.run(c, stc))
+                    f = join_fmt(f, stc.fmt)
+                st.fmt = f
+                nodes.append(("alt", brs + [[]]))   # + no case taken (`default: break`)
             elif kind == "if":
                 _, cond, a, b = s
                 if a == ("simple", "continue") and b is None:
                     # the iteration ends here or goes on
-                    return nodes + [("alt", [[], self.run(stmts[k + 1:], st)])]
+                    pre = dict(st.fmt)
+                    rest = self.run(stmts[k + 1:], st)
+                    st.fmt = join_fmt(pre, st.fmt)
+                    return nodes + [("alt", [[], rest])]
                 if self.assign_only(a, st) and (b is None or self.assign_only(b, st)):
-                    alts = []
+                    alts, f = [], None
                     for br in (a, b):
                         st2 = st.copy()
                         if br is not None:
                             self.run([br], st2)
                         alts.append(self.run(stmts[k + 1:], st2))
+                        f = dict(st2.fmt) if f is None else join_fmt(f, st2.fmt)
+                    st.fmt = f
                     return nodes + [("alt", alts)]
-                na = self.run([a], st.copy())
+                sa = st.copy()
+                na = self.run([a], sa)
                 if b is None:
+                    st.fmt = join_fmt(st.fmt, sa.fmt)
                     nodes.append(("opt", na))
                 else:
-                    nodes.append(("alt", [na, self.run([b], st.copy())]))
+                    sb = st.copy()
+                    nb = self.run([b], sb)
+                    st.fmt = join_fmt(sa.fmt, sb.fmt)
+                    nodes.append(("alt", [na, nb]))
             else:
                 r = self.simple(s[1], st)
                 if isinstance(r, tuple) and r[0] == "fork":
-                    alts = []
+                    alts, f = [], None
                     for st2, pre in r[1]:
                         alts.append(pre + self.run(stmts[k + 1:], st2))
+                        f = dict(st2.fmt) if f is None else join_fmt(f, st2.fmt)
+                    st.fmt = f
                     return nodes + [("alt", alts)]
                 nodes += r
         return nodes
@@ -373,9 +464,13 @@ class Exec:
         m = re.match(r"(out|\*\s*ostr)\s*<<", s)
         if m:
             stream = "out" if m.group(1) == "out" else "ostr"
+            tgt = self.target(stream, st)
             out = []
             for op in split_top(s, "<<")[1:]:
-                self.emit(stream, self.operand(op, st), st, out)
+                if self.manipulator(op, st, tgt):
+                    continue
+                nds = [nd + (st.fmt[tgt],) if nd[0] == "hole" else nd for nd in self.operand(op, st)]
+                self.emit(stream, nds, st, out)
             return out
         m = re.fullmatch(r"(tagsp|tagnl)\s*\(\s*out\s*,(.*)\)", s)
         if m:
@@ -385,7 +480,7 @@ class Exec:
             t = self.operand(args[0], st)
             if len(t) != 1 or t[0][0] != "lit":
                 raise SkError(f"{m.group(1)}: tag argument `{args[0]}` is not a literal")
-            st2 = State({"t": t[0][1]})
+            st2 = State({"t": t[0][1]}, fmt=st.fmt, ints=st.ints)
             st2.holes = {"n": args[1]}
             self.holes = {"n": args[1]}
             r = self.run(self.fn[m.group(1)], st2)
@@ -394,19 +489,64 @@ class Exec:
             return r
         m = re.fullmatch(r"(\w+)\s*\(\s*out(?:\s*,[^()]*)?\)", s)
         if m and m.group(1) in WRITER_FUNCS:
-            self.inlined.add(m.group(1))
-            return [("call", m.group(1))]
+            fn = m.group(1)
+            self.inlined.add(fn)
+            # the callee starts with the caller's format state and leaves its own behind (run here for that effect only;
+            # its skeleton is built separately from the recorded entry state)
+            self.entry_fmt[fn] = dict(st.fmt) if fn not in self.entry_fmt else join_fmt(self.entry_fmt[fn], st.fmt)
+            st2 = State(fmt=st.fmt)
+            self.run(self.fn[fn], st2)
+            st.fmt = dict(st2.fmt)
+            return [("call", fn)]
         m = re.fullmatch(r"(tag_id|tag_from_to)\s*\(\s*obs\s*\)", s)
         if m:
             self.inlined.add(m.group(1))
             return self.run(self.fn[m.group(1)], st)
         if re.fullmatch(r"(?:std::)?ostringstream\s+ostr", s):
             st.ostr = []
+            st.fmt["sec"] = ("gen", 6)          # a new stream: default floatfield, precision 6
             return []
-        if re.fullmatch(r"WriteXMLVisitor\s+writeVisitor\s*\(\s*out\s*,[^()]*\)", s):
+        # ---- round 8: the statements that change the format in force
+        m = re.fullmatch(r"(out|ostr)\s*\.\s*setf\s*\(\s*(?:std::)?ios_base::(fixed|scientific)\s*,\s*(?:std::)?ios_base::floatfield\s*\)", s)
+        if m:
+            self.set_ff(st, "out" if m.group(1) == "out" else "sec", "fixed" if m.group(2) == "fixed" else "sci")
+            return []
+        m = re.fullmatch(r"(out|ostr)\s*\.\s*precision\s*\((.+)\)", s)
+        if m:
+            self.set_prec(st, "out" if m.group(1) == "out" else "sec", self.eval_int(m.group(2), st))
+            return []
+        m = re.fullmatch(r"ostr\s*->\s*precision\s*\((.+)\)", s)
+        if m:
+            self.set_prec(st, self.target("ostr", st), self.eval_int(m.group(1), st))
+            return []
+        m = re.fullmatch(r"(?:const\s+)?int\s+(\w+)\s*=\s*(.+)", s)
+        if m:
+            try:
+                st.ints[m.group(1)] = self.eval_int(m.group(2), st)
+            except SkError:
+                st.ints.pop(m.group(1), None)
+            return []
+        m = re.fullmatch(r"(?:std::)?ios_base::fmtflags\s+(\w+)\s*\(\s*out\s*\.\s*flags\s*\(\s*\)\s*\)", s)
+        if m:
+            st.saved[m.group(1)] = st.fmt["out"][0]
+            return []
+        m = re.fullmatch(r"out\s*\.\s*flags\s*\(\s*(\w+)\s*\)", s)
+        if m:
+            if m.group(1) not in st.saved:
+                raise SkError(f"`{s}` restores flags that were not saved in this function")
+            self.set_ff(st, "out", st.saved[m.group(1)])       # precision is not part of the flags
+            return []
+        if re.fullmatch(r"out\s*\.\s*width\s*\(\s*\d+\s*\)", s):
+            return []                                          # pads the next item (a literal); no digit is affected
+        mv = re.fullmatch(r"WriteXMLVisitor\s+writeVisitor\s*\(\s*out\s*,([^()]*)\)", s)
+        if mv:
             # constructor: out(outStream), ostr(&outStream) — checked on the class text
             if not re.search(r":\s*out\s*\(\s*outStream\s*\)\s*,\s*ostr\s*\(\s*&\s*outStream\s*\)", self.text):
                 raise SkError("WriteXMLVisitor constructor does not bind out / ostr to its stream argument")
+            if not self.visitor_prec_ok:
+                raise SkError("WriteXMLVisitor constructor does not take (stream, linear, angular, …) / bind linear, angular")
+            args = split_top(mv.group(1), ",")
+            st.ints["linear"], st.ints["angular"] = self.eval_int(args[0], st), self.eval_int(args[1], st)
             return []
         if re.fullmatch(r"writeVisitor\.setSecondaryOutStream\s*\(\s*ostr\s*\)", s):
             st.secondary = True
@@ -421,6 +561,8 @@ class Exec:
                     raise SkError("a visit method does not set `tag`")
                 forks.append((st2, pre))
             return ("fork", forks)
+        if re.search(r"\b(precision|setf|unsetf|flags|setprecision|copyfmt|imbue)\s*\(", s) and re.search(r"\b(out|ostr)\b", s):
+            raise SkError(f"unrecognised statement that changes the stream format: `{s[:120]}`")
         # anything else must not touch the output
         if re.search(r"(^|[^\w.])(out|\*\s*ostr)\s*<<", s) or re.search(r"\(\s*out\s*[,)]", s) or re.search(r"\bostr\b\s*(<<|\.str)", s):
             raise SkError(f"unrecognised statement that writes: `{s[:120]}`")
@@ -555,16 +697,17 @@ class Lexer:
         raise SkError(f"control structure {k} inside markup ({self.mode}) in {self.where}")
 
     def hole(self, nd):
-        _, expr, esc = nd
+        _, expr, esc = nd[:3]
+        fmt = nd[3] if len(nd) > 3 else UNKNOWN_FMT
         if self.mode == "content":
             if self.buf.strip() or self.last_open is None:
                 raise SkError(f"operand `{expr}` is not directly inside a leaf element ({self.where})")
             if self.buf:
                 raise SkError(f"operand `{expr}` after white space inside <{self.last_open}> ({self.where})")
             tag = self.last_open
-            self.out.append(("text", tag, kind_of("elem", tag, self.where), esc, expr))
+            self.out.append(("text", tag, kind_of("elem", tag, self.where), esc, expr, fmt))
         elif self.mode == "attrval":
-            self.aparts.append(("op", kind_of("attr", self.aname, self.where), esc))
+            self.aparts.append(("op", kind_of("attr", self.aname, self.where), esc, fmt))
         else:
             raise SkError(f"operand `{expr}` inside markup ({self.mode}) in {self.where}")
 
@@ -785,7 +928,7 @@ def generate(repo):
         if fn in defs:
             return
         defs[fn] = None
-        nodes = ex.run(ex.fn[fn], State())
+        nodes = ex.run(ex.fn[fn], State(fmt=ex.entry_fmt.get(fn)))
         items = prune(tokenise(nodes, fn))
         for c in calls(items):
             build(c)
@@ -828,7 +971,93 @@ def generate(repo):
     L.append("def writeSk : Sk := sk_write")
     L.append("")
     L.append("end Gama.Gen.XmlSkeleton")
-    return "\n".join(L) + "\n", {"functions": order, "tokens": total, "visits": [v for v, _ in ex.visits]}
+    return "\n".join(L) + "\n", {"functions": order, "tokens": total, "visits": [v for v, _ in ex.visits],
+                                 "fmt_sites": fmt_sites(defs, order), "fmt_lean": render_fmt_sites(fmt_sites(defs, order))}
+
+
+# ------------------------------------------------------------------ round 8: the per-site number formats
+
+# numeric sites whose operand is an `int` (counters, dimensions, index lists): `operator<<(int)` ignores floatfield and
+# precision.  Hand table (trusted); every other numeric site is a `double` and MUST have a determined format.
+INT_SITES = {"dim", "band", "ind", "count-xyz", "count-xy", "count-z", "distances", "directions", "angles", "xyz-coords",
+             "h-diffs", "z-angles", "s-dists", "vectors", "azimuths", "equations", "unknowns", "degrees-of-freedom",
+             "defect", "linearization-iterations"}
+
+
+def fmt_sites(defs, order):
+    """[(fn, path, ctx, name, isInt, (floatfield, precision))] in source order, duplicates merged; `path` = the open
+    elements of the same function around the site (`coordinates/adjusted/point`)"""
+    rows = []
+
+    def walk(fn, items, stack):
+        stack = list(stack)
+        for it in items:
+            if it[0] == "text" and it[2] == "numeric":
+                add(fn, stack[:-1], "elem", it[1], it[5])
+            elif it[0] == "stag":
+                for n, v, _ in it[2]:
+                    if v[0] == "op" and v[1] == "numeric":
+                        add(fn, stack + [it[1]], "attr", n, v[3] if len(v) > 3 else UNKNOWN_FMT)
+                if not it[3]:
+                    stack.append(it[1])
+            elif it[0] == "etag":
+                if stack and stack[-1] == it[1]:
+                    stack.pop()
+            elif it[0] in ("opt", "star"):
+                walk(fn, it[1], stack)
+            elif it[0] == "alt":
+                for b in it[1]:
+                    walk(fn, b, stack)
+
+    def add(fn, stack, ctx, name, fmt):
+        row = (fn, "/".join(stack), ctx, name, name in INT_SITES, tuple(fmt))
+        if row not in rows:
+            rows.append(row)
+
+    for fn in order:
+        walk(fn, defs[fn], [])
+    return rows
+
+
+def render_fmt_sites(rows):
+    def rf(isint, f):
+        if isint:
+            return ".int"
+        ff, p = f
+        if ff == "?" or p == "?":
+            return ".unknown"
+        return f".num (.{ff} {p})"
+    L = ["/-",
+         "  GENERATED by tools/gen/c12_skeleton.py from lib/gnu_gama/xml/localnetworkxml.cpp — do not edit.",
+         "  The number format in force at every numeric operand site of LocalNetworkXML::write (round 8): the floatfield",
+         "  (`setf(ios_base::fixed | scientific, floatfield)`, `<< fixed` …) and the precision (`precision(n)`,",
+         "  `setprecision(n)`, constants resolved: `make_check_precision(·)`, the visitor's `linear` / `angular`) that the",
+         "  manipulator statements executed BEFORE the output statement leave on the stream the operand goes to (`out` or the",
+         "  visitor's secondary `ostringstream`), followed through calls, branches (join) and loops (fixed point).",
+         "  `.int` : the operand is an `int` (hand table of tag names in the generator); `.unknown` : not determined.",
+         "-/",
+         "import Gama.Model.DecimalCodec",
+         "namespace Gama.Gen.XmlFmtSites",
+         "open Gama.Dec",
+         "",
+         "inductive SiteFmt where",
+         "  | int",
+         "  | num (f : Fmt)",
+         "  | unknown",
+         "deriving DecidableEq, Repr",
+         "",
+         "structure FmtSite where",
+         "  fn : String        -- writer function (templates and visit methods are inlined into their caller)",
+         "  attr : Bool        -- attribute value (else element content)",
+         "  path : String      -- the open elements of that function around the site",
+         "  name : String      -- element / attribute name",
+         "  fmt : SiteFmt",
+         "deriving DecidableEq, Repr",
+         "",
+         "def sites : List FmtSite := ["]
+    L.append(",\n".join(f"  ⟨{lstr(fn)}, {rbool(ctx == 'attr')}, {lstr(path)}, {lstr(name)}, {rf(isint, f)}⟩" for fn, path, ctx, name, isint, f in rows) + "]")
+    L += ["", "end Gama.Gen.XmlFmtSites"]
+    return "\n".join(L) + "\n"
 
 
 if __name__ == "__main__":
@@ -836,6 +1065,8 @@ if __name__ == "__main__":
     txt, info = generate(repo)
     if len(sys.argv) > 2:
         Path(sys.argv[2]).write_text(txt)
+        if len(sys.argv) > 3:
+            Path(sys.argv[3]).write_text(info["fmt_lean"])
     else:
         sys.stdout.write(txt)
-    print(info, file=sys.stderr)
+    print({k: v for k, v in info.items() if k != "fmt_lean"}, file=sys.stderr)
